@@ -16,7 +16,7 @@ def gen_case(rng):
     k = rng.choice([t for t in range(1, 8) if t % ts != 0])
     return {'kind': 'deadwriter', 'slow_ts': ts, 'delete_at': k, 'delta': rng.choice([1, 4, 10]),
             'ticks': k + rng.choice([ts, ts + 1, 2 * ts]), 'reaper_first': rng.random() < 0.5,
-            'regen': rng.random() < 0.4, 'replace': rng.random() < 0.25}
+            'regen': rng.random() < 0.4, 'replace': rng.random() < 0.25, 'pre_run': rng.random() < 0.3}
 
 
 def corpus():
@@ -27,7 +27,11 @@ def corpus():
              'regen': True},
             # F51: the compartment's process is replaced in place (a `_generate` with the same key, no deletion)
             {'kind': 'deadwriter', 'slow_ts': 4, 'delete_at': 1, 'delta': 1, 'ticks': 6, 'reaper_first': True,
-             'regen': True, 'replace': True}]
+             'regen': True, 'replace': True},
+            # the replaced process lags behind after an unforced run_for() (nothing of it in flight, a deferred
+            # timestep kept): the newcomer inherits neither its time nor that timestep
+            {'kind': 'deadwriter', 'slow_ts': 3, 'delete_at': 2, 'delta': 1, 'ticks': 6, 'reaper_first': True,
+             'regen': True, 'replace': True, 'pre_run': True}]
 
 
 def run_impl(case):
@@ -64,7 +68,7 @@ def run_impl(case):
             return {'own': {'n': {'_default': 0, '_emit': True}, 'fresh': {'_default': 1, '_emit': True}}}
 
         def next_update(self, timestep, states):
-            return {'own': {'n': 1}}
+            return {'own': {'n': timestep}}      # +1 per time unit (its timestep is 1)
 
     class Regen(Process):
         def __init__(self, parameters=None):
@@ -94,7 +98,13 @@ def run_impl(case):
             parts.append(('regen', Regen(), {'agents': ('agents',)}))
         eng = Engine(processes={n: p for n, p, _ in parts}, topology={n: t for n, _, t in parts},
                      display_info=False, progress_bar=False)
-        eng.update(case['ticks'])           # one call: the slow process really is in flight between its ticks
+        if case.get('pre_run') and case['delete_at'] < case['slow_ts']:
+            # an unforced call that ends when the structural update is applied: the slow process's interval did not
+            # fit, it lags behind with a deferred timestep and nothing in flight
+            eng.run_for(case['delete_at'])
+            eng.update(case['ticks'] - case['delete_at'])
+        else:
+            eng.update(case['ticks'])       # one call: the slow process really is in flight between its ticks
         vals = []
         for t, row in sorted(eng.emitter.get_data().items()):
             a = ((row.get('agents') or {}).get('a') or {}).get('own') or {}
